@@ -163,6 +163,8 @@ pub struct RefResult {
     pub ambiguous_at: Option<u64>,
     /// first iteration after which an exact tie was resolved by the tie rule
     pub tie_used_at: Option<u64>,
+    /// some chance infoset was met at two or more nodes within one pass of a sampled method
+    pub shared_chance_reached: bool,
     /// a draw the decider could not provide
     pub missing_draw: Option<(Kind, usize, usize, u64)>,
     pub draws: Vec<RefDraw>,
@@ -321,6 +323,7 @@ pub fn run(game: &RefGame, cfg: RunCfg) -> RefResult {
         fragile_why: None,
         ambiguous_at: None,
         tie_used_at: None,
+        shared_chance_reached: false,
         missing_draw: None,
         draws: Vec::new(),
         cum_regret: Default::default(),
@@ -367,7 +370,10 @@ pub fn run(game: &RefGame, cfg: RunCfg) -> RefResult {
                             }
                         } else {
                             let pick = match chance_draw.get(info) {
-                                Some(c) => *c,
+                                Some(c) => {
+                                    res.shared_chance_reached = true;
+                                    *c
+                                }
                                 None => {
                                     let weights = &game.chance_probs[*info];
                                     match decider.decide(Kind::Chance, 0, *info, pass, weights) {
